@@ -387,7 +387,7 @@ func GenerateImpl(seed uint64, root string) *Module {
 		}
 		made = append(made, tname)
 		for k, s := range need {
-			variant := r.Intn(9) // 0..4 correct, 5 missing, 6 wrong type, 7 pointer depth / variadic change, 8 boundary between parameters and results moved
+			variant := r.Intn(10) // 0..4 correct, 5 missing, 6 wrong type, 7 pointer depth / variadic change, 8 boundary between parameters and results moved, 9 same-named type of the other package named ifc
 			if s.name == "seal" {
 				if mode == 6 {
 					continue // promoted from the embedded Base
@@ -446,8 +446,33 @@ func GenerateImpl(seed uint64, root string) *Module {
 					recv = "t " + inner
 				}
 			}
-			b.WriteString(g.methodDecl(pool, recv, ms) + "\n\n")
+			decl := g.methodDecl(pool, recv, ms)
+			if variant == 9 && v2 && !strings.Contains(decl, "PData") {
+				// Data of exp/.../v2/ifc instead of exp/.../ifc: the two print alike (ifc.Data) and are different types
+				decl = strings.ReplaceAll(decl, qual+"Data", "ifcv2.Data")
+			}
+			b.WriteString(decl + "\n\n")
 		}
+	}
+	// a parenthesised group: specs with a doc of their own between specs without one (each spec speaks for itself,
+	// an undocumented spec falls back to the group's doc only)
+	{
+		it := all[r.Intn(len(all))]
+		q := ""
+		switch it.pkg {
+		case "ifc":
+			q = qual
+		case "yaml":
+			q = yq
+		}
+		gdoc := ""
+		switch r.Intn(3) {
+		case 0:
+			gdoc = "// Grouped declarations.\n"
+		case 1:
+			gdoc = "// Grouped declarations.\n// @implements LocalI\n"
+		}
+		b.WriteString(gdoc + "type (\n\tGA struct{ Z int }\n\t// GB claims an interface.\n\t// @implements " + q + it.name + "\n\tGB struct{ Z int }\n\tGC struct{ Z int }\n\t// GD is documented, without a claim.\n\tGD struct{ Z int }\n\t// @implements &LocalI\n\tGE struct{ Z int }\n\tGF struct{ Z int }\n)\n\n")
 	}
 	// annotated alias declarations: the annotation is about the type the alias denotes
 	for k := 0; k < 3 && len(made) > 0; k++ {
